@@ -593,6 +593,13 @@ impl SysBackend for NativeSys {
     }
     fn read_lines<'a>(&self, handle: Handle) -> Result<ReadLinesReturnFn<'a>, String> {
         Ok(Box::new(move |env: &mut Uiua, mut f: ReadLinesFn| {
+            if handle == Handle::STDIN {
+                for line in stdin().lines() {
+                    let line = line.map_err(|e| env.error(e))?;
+                    f(line, env)?;
+                }
+                return Ok(());
+            }
             match NATIVE_SYS.get_stream(handle).map_err(|e| env.error(e))? {
                 SysStream::File(mut file) => {
                     for line in (&mut *file).lines() {
